@@ -2377,8 +2377,9 @@ add_block_send(uint32_t num, int is_continue, send_track *out_blocks,
     if (num == out_blocks[i].num)
       return 0;
     else if (num < out_blocks[i].num) {
-      if (*count - i > 1)
-        memmove(&out_blocks[i], &out_blocks[i+1], *count - i -1);
+      /* open a gap for the new entry (*count < max_count checked above) */
+      memmove(&out_blocks[i+1], &out_blocks[i],
+              (*count - i) * sizeof(out_blocks[0]));
       out_blocks[i].num = num;
       out_blocks[i].is_continue = is_continue;
       (*count)++;
